@@ -2,6 +2,7 @@ import Driver.SpecDrv
 import Driver.FlwDrv
 import Driver.ConcDrv
 import Driver.FmtDrv
+import Driver.NamesDrv
 /-
   Line-protocol driver: reads cases from stdin, answers every line with one line.
 
@@ -17,6 +18,7 @@ inductive MSt where
   | flw (s : FlwDrv.St)
   | conc (s : ConcDrv.St)
   | fmt (s : FmtDrv.St)
+  | names (s : NamesDrv.St)
 
 def stepLine (st : MSt) (line : String) : MSt × String :=
   let toks := (line.trimAscii.toString.splitOn " ").filter (· ≠ "")
@@ -28,6 +30,7 @@ def stepLine (st : MSt) (line : String) : MSt × String :=
     | "flw" => (.flw {}, hdr)
     | "conc" => (.conc {}, hdr)
     | "fmt" => (.fmt {}, hdr)
+    | "names" => (.names {}, hdr)
     | _ => (.none, hdr ++ " unknown-model")
   | ["END"] => (.none, "END")
   | _ =>
@@ -37,6 +40,7 @@ def stepLine (st : MSt) (line : String) : MSt × String :=
     | .flw s => let (s', out) := FlwDrv.step s toks; (.flw s', out)
     | .conc s => let (s', out) := ConcDrv.step s toks; (.conc s', out)
     | .fmt s => let (s', out) := FmtDrv.step s toks; (.fmt s', out)
+    | .names s => let (s', out) := NamesDrv.step s toks; (.names s', out)
 
 partial def loop (hin : IO.FS.Stream) (hout : IO.FS.Stream) (st : MSt) : IO Unit := do
   let line ← hin.getLine
